@@ -169,6 +169,7 @@ def h_two(ctx, plan, ncalls):
         core.running = False
         return [], [], []
       w = list(w)
+      if any(c.fileno() < 0 for c in list(r) + w + list(x) if hasattr(c, 'fileno')): raise ValueError("file descriptor cannot be a negative integer (-1)")      # as select.select does
       if self.everything: return [], w, []
       nround[0] += 1
       return [], [c for c in w if bool(ctx.bool('writable_%s_%d' % ('a' if c is cons['a'] else 'b', nround[0])))], []
@@ -180,19 +181,22 @@ def h_two(ctx, plan, ncalls):
     core.running = True
     try: ds.run()
     finally: core.running = True
-  cnt = {'a': 0, 'b': 0}
+  cnt = {'a': 0, 'b': 0}; lost = set()
   def check(quiescent):
     for t in 'ab':
       got = _concat(ctx, socks[t].accepted); exp = _concat(ctx, queued[t])
       ctx.check('connection %s: accepted bytes are a prefix of its queued stream (length)' % t.upper(), len(got) <= len(exp))
       if len(got) <= len(exp):
         ctx.check('connection %s: accepted bytes are a prefix of its queued stream' % t.upper(), ctx.Eq(env.tobytes(ctx, got), env.tobytes(ctx, exp[:len(got)])))
-      if quiescent and not socks[t].fatal: ctx.check('connection %s: at quiescence everything was written' % t.upper(), len(got) == len(exp))
+      if quiescent and not socks[t].fatal and t not in lost: ctx.check('connection %s: at quiescence everything was written' % t.upper(), len(got) == len(exp))
   for op in plan:
     if op in 'ab':
       m = ctx.bytes('m%s%d' % (op, cnt[op]), 8 + 2 * cnt[op]); cnt[op] += 1
       if not cons[op].disconnected: queued[op].append(m)
       cons[op].send(m)
+    elif op == 'x':
+      # connection A is lost on the read side (the OpenFlow task closes it) while it may still have data backed up in the deferred sender
+      cons['a'].close(); lost.add('a'); ctx.witness('lost-with-backlog' if cons['a'] in ds._dataForConnection else 'lost')
     else:
       flush(1)
     check(False)
@@ -432,7 +436,7 @@ def obligations(tier):
                desc='IOWorker.shutdown() with more than one I/O-buffer of data queued: everything is written before the socket is shut down, once'),
     Obligation('O3_threads', h_threads, tcases, witnesses=('done', 'bound-reached'), max_decisions=20000, mode='int', path_seconds=120,
                desc='Connection.send (cooperative thread) against the real DeferredSender.run loop (its own thread), interleaved at statement granularity: stream preserved'),
-    Obligation('O4_two_connections', h_two, [dict(plan=p, ncalls=3) for p in (['abfb', 'abfab', 'bafa'] + (['abffba', 'aabfb'] if thorough else []))], witnesses=('clean',),
+    Obligation('O4_two_connections', h_two, [dict(plan=p, ncalls=3) for p in (['abfb', 'abfab', 'bafa', 'abxfb', 'abxb'] + (['abffba', 'aabfb'] if thorough else []))], witnesses=('clean',),
                max_decisions=20000, desc='two connections behind the one DeferredSender, symbolic writable subsets per flush round: each connection keeps its own stream order'),
     Obligation('O1_controller', h_controller, [dict(nmsgs=p.count('s'), ncalls=nc, plan=p) for p in cplans], witnesses=('fatal', 'clean'),
                max_decisions=20000, desc='Connection.send + DeferredSender: accepted stream == queued stream; no write after fatal error; one ConnectionDown'),
